@@ -428,6 +428,12 @@ class SigmaDetection(ParentChainMixin):
                                         f"Can't merge negated items '{k}' into one item.",
                                         source=self.source,
                                     )
+                                if v == [] or merged_dict[k] == []:
+                                    # an empty value list is a null check and would disappear
+                                    raise sigma_exceptions.SigmaValueError(
+                                        f"Can't merge empty value list of '{k}' into one item.",
+                                        source=self.source,
+                                    )
                                 if "|all" in k:  # key contains 'all' modifier
                                     mk = merged_dict[k]
                                     if not isinstance(
